@@ -1,1 +1,273 @@
-From PB Require Import Common TokenRing LasOracle.
+(* Proofs of the C02 data-structure theorems about Model/TokenRing.v. *)
+From PB Require Import Common TokenRing LasOracle LasRep.
+From Coq Require Import Sorted.
+
+Definition wf (r : ring) : Prop := length (r_las r) = 128%nat.
+
+(* the LAS bit array after update_las_from_token_pass(sa, da) *)
+Definition las_after (las : list bool) (sa da : Z) : list bool :=
+  set_nth
+    (if sa <? da then fill_from las (Z.to_nat sa) (Z.to_nat (da - sa)) false
+     else fill_from (fill_from las (Z.to_nat sa) (Z.to_nat (128 - sa)) false)
+                    (Z.to_nat 0) (Z.to_nat (da - 0)) false)
+    (Z.to_nat sa) true.
+
+Definition upd (r : ring) (sa da : Z) : ring :=
+  update_next_previous (mkRing (las_after (r_las r) sa da) (r_state r) (r_ts r) (r_ns r) (r_ps r)).
+
+Lemma las_after_length : forall las sa da, length (las_after las sa da) = length las.
+Proof.
+  intros. unfold las_after. rewrite set_nth_length.
+  destruct (sa <? da); rewrite ?fill_from_length; reflexivity.
+Qed.
+
+Lemma activeb_las_after : forall las sa da a,
+  length las = 128%nat -> 0 <= sa < 128 -> 0 <= da <= 128 ->
+  activeb (las_after las sa da) a = (a =? sa) || (activeb las a && negb (in_gapb sa da a)).
+Proof.
+  intros las sa da a HL Hs Hd. unfold las_after, in_gapb.
+  destruct (Z.ltb_spec sa da) as [L|L].
+  - rewrite activeb_set by (rewrite fill_from_length; lia).
+    rewrite activeb_fill by lia.
+    destruct (Z.eqb_spec a sa); simpl; auto.
+    destruct ((sa <=? a) && (a <? da)); simpl; [rewrite andb_false_r|rewrite andb_true_r]; reflexivity.
+  - rewrite activeb_set by (rewrite !fill_from_length; lia).
+    change (Z.to_nat 0) with (Z.to_nat 0).
+    rewrite (activeb_fill _ 0 da) by (rewrite ?fill_from_length; lia).
+    replace (Z.to_nat (128 - sa)) with (Z.to_nat (128 - sa)) by reflexivity.
+    rewrite (activeb_fill _ sa 128) by lia.
+    destruct (Z.eqb_spec a sa); simpl; auto.
+    destruct (Z.leb_spec 0 a); destruct (Z.ltb_spec a da); destruct (Z.leb_spec sa a);
+      destruct (Z.ltb_spec a 128); simpl; rewrite ?andb_false_r, ?andb_true_r; try reflexivity; try lia.
+    all: unfold activeb; destruct (Z.leb_spec 0 a); simpl; auto; apply nth_overflow; lia.
+Qed.
+
+Lemma update_las_ok : forall r sa da, wf r -> 0 <= sa < 128 -> 0 <= da <= 128 ->
+  update_las r sa da = Ok (upd r sa da).
+Proof.
+  intros r sa da W Hs Hd. unfold update_las, upd, las_after, las_fill, las_set.
+  destruct (Z.ltb_spec sa da) as [L|L].
+  - destruct (Z.leb_spec 0 sa); destruct (Z.leb_spec sa da); destruct (Z.leb_spec da 128); try lia.
+    destruct (Z.ltb_spec sa 128); try lia. reflexivity.
+  - destruct (Z.leb_spec 0 sa); destruct (Z.leb_spec sa 128); destruct (Z.leb_spec 128 128); try lia.
+    destruct (Z.leb_spec 0 0); destruct (Z.leb_spec 0 da); destruct (Z.leb_spec da 128); try lia.
+    destruct (Z.ltb_spec sa 128); try lia. reflexivity.
+Qed.
+
+Lemma upd_wf : forall r sa da, wf r -> wf (upd r sa da).
+Proof. intros. unfold wf, upd. simpl. rewrite las_after_length. exact H. Qed.
+
+Lemma upd_fields : forall r sa da,
+  r_las (upd r sa da) = las_after (r_las r) sa da /\ r_state (upd r sa da) = r_state r /\
+  r_ts (upd r sa da) = r_ts r /\
+  r_ns (upd r sa da) = next_of (las_ones (las_after (r_las r) sa da)) (r_ts r) /\
+  r_ps (upd r sa da) = prev_of (las_ones (las_after (r_las r) sa da)) (r_ts r).
+Proof. intros. unfold upd, update_next_previous. simpl. auto. Qed.
+
+(* ------------------------------------------------------------------ verify_las *)
+
+Lemma las_get_ok : forall las i, 0 <= i < 128 -> las_get las i = Ok (activeb las i).
+Proof.
+  intros las i H. unfold las_get, activeb.
+  destruct (Z.leb_spec 0 i); destruct (Z.ltb_spec i 128); try lia. reflexivity.
+Qed.
+
+Lemma verify_las_spec : forall r sa da, wf r -> 0 <= sa < 128 -> 0 <= da < 128 ->
+  exists b, verify_las r sa da = Ok b /\ (b = true <-> verifies (r_las r) sa da).
+Proof.
+  intros r sa da W Hs Hd. unfold verify_las, verifies, strictly_between.
+  rewrite !las_get_ok by lia. simpl bind.
+  destruct (activeb (r_las r) sa) eqn:A; simpl.
+  2:{ exists false. split; auto. split; [discriminate|]. unfold active. rewrite A. intros [Q _]. discriminate. }
+  destruct (activeb (r_las r) da) eqn:B; simpl.
+  2:{ exists false. split; auto. split; [discriminate|]. unfold active. rewrite B. intros [_ [Q _]]. discriminate. }
+  destruct (Z.ltb_spec sa da) as [L|L].
+  - destruct (las_any_spec (r_las r) (sa + 1) da) as [x [E X]]; try lia; auto.
+    rewrite E. simpl. exists (negb x). split; auto. split.
+    + intros N. apply negb_true_iff in N. split; auto. split; auto.
+      intros y Hy Q. assert (x = true) by (apply X; exists y; split; [lia|auto]). congruence.
+    + intros [_ [_ H]]. apply negb_true_iff. destruct x; auto.
+      destruct (proj1 X eq_refl) as [y [Hy1 Hy2]]. exfalso. apply (H y Hy2). lia.
+  - destruct (las_any_spec (r_las r) (sa + 1) 128) as [x [E X]]; try lia; auto.
+    rewrite E. simpl. destruct x.
+    + exists false. split; auto. split; [discriminate|]. intros [_ [_ H]].
+      destruct (proj1 X eq_refl) as [y [Hy1 Hy2]]. exfalso. apply (H y Hy2). lia.
+    + destruct (las_any_spec (r_las r) 0 da) as [z [E2 Z2]]; try lia; auto.
+      rewrite E2. simpl. exists (negb z). split; auto. split.
+      * intros N. apply negb_true_iff in N. split; auto. split; auto.
+        intros y Hy Q. pose proof (active_range _ _ Hy) as Ry. rewrite W in Ry.
+        destruct Q as [Q|Q].
+        -- assert (false = true) by (apply X; exists y; split; [lia|auto]). discriminate.
+        -- assert (z = true) by (apply Z2; exists y; split; [lia|auto]). congruence.
+      * intros [_ [_ H]]. apply negb_true_iff. destruct z; auto.
+        destruct (proj1 Z2 eq_refl) as [y [Hy1 Hy2]]. exfalso. apply (H y Hy2). lia.
+Qed.
+
+Lemma verify_las_true : forall r sa da, wf r -> 0 <= sa < 128 -> 0 <= da < 128 ->
+  verifies (r_las r) sa da -> verify_las r sa da = Ok true.
+Proof.
+  intros r sa da W Hs Hd V. destruct (verify_las_spec r sa da W Hs Hd) as [b [E B]].
+  rewrite E. f_equal. apply B. exact V.
+Qed.
+
+Lemma verify_las_false : forall r sa da, wf r -> 0 <= sa < 128 -> 0 <= da < 128 ->
+  ~ verifies (r_las r) sa da -> verify_las r sa da = Ok false.
+Proof.
+  intros r sa da W Hs Hd V. destruct (verify_las_spec r sa da W Hs Hd) as [b [E B]].
+  rewrite E. f_equal. destruct b; auto. exfalso. apply V. apply B. reflexivity.
+Qed.
+
+(* ------------------------------------------------------------------ witness, state by state *)
+
+Lemma witness_bad : forall r sa da, 125 < sa \/ 125 < da -> witness r sa da = Ok r.
+Proof.
+  intros r sa da H. unfold witness.
+  destruct (Z.ltb_spec 125 sa); auto. destruct (Z.ltb_spec 125 da); auto. lia.
+Qed.
+
+Lemma witness_good : forall r sa da, wf r -> 0 <= sa <= 125 -> 0 <= da <= 125 ->
+  witness r sa da =
+  match r_state r with
+  | LasUninitialized => if da <=? sa then Ok (with_state r LasDiscovery) else Ok r
+  | LasDiscovery => Ok (if da <=? sa then with_state (upd r sa da) LasVerification else upd r sa da)
+  | LasVerification =>
+      match verify_las r sa da with
+      | Ok true => if da <=? sa then Ok (with_state r LasValid) else Ok r
+      | Ok false => Ok (with_state (upd r sa da) LasDiscovery)
+      | Panic s => Panic s
+      | OutOfFuel => OutOfFuel
+      end
+  | LasValid => Ok (upd r sa da)
+  end.
+Proof.
+  intros r sa da W Hs Hd. unfold witness.
+  destruct (Z.ltb_spec 125 sa); try lia. destruct (Z.ltb_spec 125 da); try lia.
+  destruct (r_state r); auto.
+  - rewrite update_las_ok by (auto; lia). simpl. destruct (da <=? sa); reflexivity.
+  - destruct (verify_las r sa da) as [[|]| |]; simpl; auto.
+    rewrite update_las_ok by (auto; lia). reflexivity.
+  - apply update_las_ok; auto; lia.
+Qed.
+
+Lemma with_state_wf : forall r s, wf r -> wf (with_state r s).
+Proof. intros. exact H. Qed.
+
+Lemma witness_total : forall r sa da, wf r -> 0 <= sa -> 0 <= da ->
+  exists r', witness r sa da = Ok r' /\ wf r' /\ r_ts r' = r_ts r.
+Proof.
+  intros r sa da W Hs Hd.
+  destruct (Z.ltb_spec 125 sa) as [A|A]; [rewrite witness_bad by lia; eauto|].
+  destruct (Z.ltb_spec 125 da) as [B|B]; [rewrite witness_bad by lia; eauto|].
+  rewrite witness_good by (auto; lia).
+  destruct (r_state r).
+  - destruct (da <=? sa); eexists; split; eauto.
+  - destruct (da <=? sa); eexists; split; eauto; split; try apply with_state_wf; try apply upd_wf; auto.
+  - destruct (verify_las_spec r sa da W) as [b [E _]]; try lia. rewrite E.
+    destruct b; [destruct (da <=? sa)|]; eexists; split; eauto.
+    split; [apply with_state_wf, upd_wf; auto|reflexivity].
+  - eexists; split; eauto. split; [apply upd_wf; auto|reflexivity].
+Qed.
+
+(* ------------------------------------------------------------------ no panic *)
+
+Lemma las_set_ok : forall las i v, 0 <= i < 128 -> las_set las i v = Ok (set_nth las (Z.to_nat i) v).
+Proof.
+  intros. unfold las_set. destruct (Z.leb_spec 0 i); destruct (Z.ltb_spec i 128); try lia. reflexivity.
+Qed.
+
+Lemma las_set_panic : forall las i v, ~ 0 <= i < 128 -> las_set las i v = Panic SiteIndex.
+Proof.
+  intros. unfold las_set. destruct (Z.leb_spec 0 i); destruct (Z.ltb_spec i 128); try lia; reflexivity.
+Qed.
+
+Lemma ring_new_ok : forall a, 0 <= a < 128 ->
+  exists r, ring_new a = Ok r /\ wf r /\ r_ts r = a /\ r_state r = LasUninitialized /\
+            r_ns r = a /\ r_ps r = a /\ las_ones (r_las r) = [a].
+Proof.
+  intros a H. unfold ring_new. rewrite las_set_ok by lia. cbn [bind].
+  eexists. split; [reflexivity|]. unfold wf. cbn [r_las r_ts r_state r_ns r_ps].
+  split; [rewrite set_nth_length, repeat_length; reflexivity|].
+  repeat split; auto.
+  apply sorted_ext; [apply las_ones_sorted|constructor; constructor|].
+  intros x. rewrite In_las_ones. unfold active.
+  rewrite activeb_set by (rewrite repeat_length; unfold las_size; lia).
+  destruct (Z.eqb_spec x a); [subst; simpl; tauto|].
+  unfold activeb. split; [|intros [Q|[]]; congruence].
+  intros Q. apply andb_true_iff in Q. destruct Q as [_ Q].
+  exfalso. revert Q. generalize (Z.to_nat x). unfold las_size.
+  intros k. destruct (Nat.lt_ge_cases k 128) as [L|L].
+  - rewrite nth_repeat. discriminate.
+  - rewrite nth_overflow by (rewrite repeat_length; lia). discriminate.
+Qed.
+
+Lemma set_next_station_ok : forall r a, wf r -> 0 <= r_ts r < 128 -> 0 <= a < 128 ->
+  set_next_station r a =
+  Ok (upd (mkRing (set_nth (r_las r) (Z.to_nat a) true) (r_state r) (r_ts r) (r_ns r) (r_ps r)) (r_ts r) a).
+Proof.
+  intros r a W Ht Ha. unfold set_next_station. rewrite las_set_ok by lia. simpl.
+  rewrite update_las_ok; auto; try (simpl; lia).
+  unfold wf. simpl. rewrite set_nth_length. exact W.
+Qed.
+
+Lemma remove_station_ok : forall r a, 0 <= a < 128 ->
+  remove_station r a =
+  Ok (update_next_previous (mkRing (set_nth (r_las r) (Z.to_nat a) false) (r_state r) (r_ts r) (r_ns r) (r_ps r))).
+Proof. intros r a Ha. unfold remove_station. rewrite las_set_ok by lia. reflexivity. Qed.
+
+Lemma step_total : forall r o, wf r -> 0 <= r_ts r < 128 ->
+  match o with
+  | OpW sa da => 0 <= sa /\ 0 <= da
+  | OpC => True
+  | OpN a | OpR a => 0 <= a < 128
+  end ->
+  exists r', step r o = Ok r' /\ wf r' /\ r_ts r' = r_ts r.
+Proof.
+  intros r o W Ht Ho. destruct o as [sa da| |a|a]; simpl.
+  - apply witness_total; tauto.
+  - eexists; split; eauto.
+  - rewrite set_next_station_ok by auto. eexists; split; eauto. split; [|reflexivity].
+    apply upd_wf. unfold wf. simpl. rewrite set_nth_length. exact W.
+  - rewrite remove_station_ok by auto. eexists; split; eauto. split; [|reflexivity].
+    unfold wf. simpl. rewrite set_nth_length. exact W.
+Qed.
+
+Lemma run_total : forall ops r, wf r -> 0 <= r_ts r < 128 ->
+  Forall (fun o => match o with
+                   | OpW sa da => 0 <= sa /\ 0 <= da
+                   | OpC => True
+                   | OpN a | OpR a => 0 <= a < 128
+                   end) ops ->
+  exists r', run r ops = Ok r' /\ wf r' /\ r_ts r' = r_ts r.
+Proof.
+  induction ops as [|o t IH]; intros r W Ht F; simpl.
+  - eauto.
+  - inversion F as [|? ? Fo Ft]; subst.
+    destruct (step_total r o W Ht Fo) as [r1 [E [W1 T1]]]. rewrite E. simpl.
+    destruct (IH r1 W1) as [r' [E' [W' T']]]; auto; try lia.
+    exists r'. split; auto. split; auto. lia.
+Qed.
+
+Lemma no_panic_run : forall ts ops, c02_nopanic_dom ts ops = true ->
+  exists r0 r, ring_new ts = Ok r0 /\ run r0 ops = Ok r /\ r_ts r = ts /\ length (r_las r) = 128%nat.
+Proof.
+  intros ts ops H. unfold c02_nopanic_dom in H.
+  apply andb_true_iff in H. destruct H as [H F]. apply andb_true_iff in H. destruct H as [H1 H2].
+  apply Z.leb_le in H1. apply Z.ltb_lt in H2.
+  destruct (ring_new_ok ts) as [r0 [E [W [T _]]]]; [lia|].
+  destruct (run_total ops r0 W) as [r [E' [W' T']]]; [lia| |].
+  - rewrite forallb_forall in F. apply Forall_forall. intros o Ho. specialize (F o Ho).
+    destruct o; auto.
+    + repeat (apply andb_true_iff in F; destruct F as [F ?]). apply Z.leb_le in F. zb; try discriminate. lia.
+    + apply andb_true_iff in F. destruct F as [F1 F2]. apply Z.leb_le in F1. apply Z.ltb_lt in F2. lia.
+    + apply andb_true_iff in F. destruct F as [F1 F2]. apply Z.leb_le in F1. apply Z.ltb_lt in F2. lia.
+  - exists r0, r. repeat split; auto. lia.
+Qed.
+
+Lemma set_next_station_panics : forall r a, ~ 0 <= a < 128 -> set_next_station r a = Panic SiteIndex.
+Proof. intros. unfold set_next_station. rewrite las_set_panic by auto. reflexivity. Qed.
+
+Lemma remove_station_panics : forall r a, ~ 0 <= a < 128 -> remove_station r a = Panic SiteIndex.
+Proof. intros. unfold remove_station. rewrite las_set_panic by auto. reflexivity. Qed.
+
+Lemma ring_new_panics : forall a, ~ 0 <= a < 128 -> ring_new a = Panic SiteIndex.
+Proof. intros. unfold ring_new. rewrite las_set_panic by auto. reflexivity. Qed.
